@@ -17,6 +17,7 @@ import (
 	"encoding/json"
 	"fmt"
 	"math/big"
+	"net"
 	"net/mail"
 	"net/url"
 	"os"
@@ -91,6 +92,7 @@ var externPredImpl = map[string]func(string) bool{
 	"util.IsInTLDMap":             util.IsInTLDMap,
 	"util.HasReservedLabelPrefix": util.HasReservedLabelPrefix,
 	"util.HasXNLabelPrefix":       util.HasXNLabelPrefix,
+	"net.ParseIP.nil":             func(s string) bool { return net.ParseIP(s) == nil },
 }
 
 var bodyExternFns, bodyExternPreds []string
@@ -550,7 +552,7 @@ func subBodies(out string, seed uint64, tier string, arg string) {
 		spec := CertSpec{IsCA: rng.Intn(3) == 0, SelfSigned: rng.Intn(4) == 0}
 		spec.Subject = pkix.Name{}
 		if rng.Intn(4) != 0 {
-			spec.Subject.CommonName = []string{"a.example.com", "CA Name", "192.0.2.1", "x"}[rng.Intn(4)]
+			spec.Subject.CommonName = []string{"a.example.com", "CA Name", "192.0.2.1", "x", "2001:db8::1", "a..example.com", "w*.example.com", "a.*.example.com", strings.Repeat("c", 64) + ".example.com", "*.example.com", ".", "192.0.2.256"}[rng.Intn(12)]
 		}
 		spec.Subject.Country = pickS(strsPool, 2)
 		spec.Subject.Organization = pickS(strsPool, 2)
@@ -569,7 +571,7 @@ func subBodies(out string, seed uint64, tier string, arg string) {
 			spec.Subject.ExtraNames = append(spec.Subject.ExtraNames, pkix.AttributeTypeAndValue{Type: asn1.ObjectIdentifier{2, 5, 4, 15}, Value: "Private Organization"}, pkix.AttributeTypeAndValue{Type: asn1.ObjectIdentifier{2, 5, 4, 97}, Value: "NTRGB-12345678"})
 		}
 		if rng.Intn(4) != 0 {
-			spec.DNS = pickS([]string{"a.example.com", "b.example.org", "*.example.com", "x_y.example.com"}, 3)
+			spec.DNS = pickS([]string{"a.example.com", "b.example.org", "*.example.com", "x_y.example.com", "a..example.com", "example.com.", "w*.example.com", "a.*.example.com", "*", strings.Repeat("l", 63) + ".example.com", strings.Repeat("l", 64) + ".example.com", "x." + strings.Repeat("m", 70), ".example.com", "nodot"}, 3)
 		}
 		spec.Emails = pickS([]string{"a@example.com", "b@example.org"}, 1)
 		if rng.Intn(4) == 0 {
